@@ -1,19 +1,23 @@
 import Driver.Common
+import Driver.OpsBrake
 import Driver.OpsHist
 import Driver.OpsMass
 import Driver.OpsNet
 import Driver.OpsPT
 import Driver.OpsPar
+import Driver.OpsPlan
 import Driver.OpsSP
 import Driver.OpsSerde
 import Driver.OpsTrain
 namespace Driver
 def allHandlers : List (String × Handler) :=
+  Driver.OpsBrake.handlers ++
   Driver.OpsHist.handlers ++
   Driver.OpsMass.handlers ++
   Driver.OpsNet.handlers ++
   Driver.OpsPT.handlers ++
   Driver.OpsPar.handlers ++
+  Driver.OpsPlan.handlers ++
   Driver.OpsSP.handlers ++
   Driver.OpsSerde.handlers ++
   Driver.OpsTrain.handlers
